@@ -1,25 +1,38 @@
-"""Simulated disk: in-memory files with durable content and injected write/read faults.
+"""Simulated disk: a private scratch directory whose files are real (so renames, temporary files, os.* calls made by
+the code under test behave as on a real disk) but whose *writes* go through a fault-injecting file object.
 
-Installed by name injection (gnpy.tools.json_io.open = disk.open), which shadows the builtin inside that module only,
-so the real save_network / load_network (including YANG conversion) run against it.  Nothing is changed in /repo."""
+Installed by name injection (gnpy.tools.json_io.open = disk.open), which shadows the builtin inside that module only, so
+the real save_network / load_network (including YANG conversion) run against it.  Nothing is changed in /repo.
+
+Fault kinds (armed per operation):
+  enospc / eio_write : write() raises OSError after `at` characters; what was written stays in the file (as on a real disk)
+  torn_crash         : the process dies after `at` characters reached the disk (SimCrash); the file holds that prefix
+  lost_crash         : the process dies before anything of the rewrite reached the disk; the file holds its old content
+                       (variant 'old') or is empty (variant 'empty': the truncation reached the disk, the data did not)
+  eio_read           : opening for reading raises OSError
+"""
+import builtins
 import errno
-import io
+import os
+import shutil
 
 
 class SimCrash(BaseException):
-    """the process dies here; only durable content survives"""
+    """the process dies here; only what is on the disk survives"""
 
 
-class SimWriter(io.StringIO):
-    def __init__(self, disk, name):
-        super().__init__()
+class FaultyWriter:
+    """proxy around a real text file opened for writing"""
+
+    def __init__(self, disk, name, real, old):
         self.disk = disk
-        self.name = name      # absolute, normalised
-        self.old = disk.durable.get(name)
+        self.name = name
+        self.real = real
+        self.old = old
         self.written = 0
         self.failed = False
         self.crashed = False
-        disk.opens_w += 1
+        self.closed = False
 
     def write(self, s):
         f = self.disk.fault
@@ -27,7 +40,8 @@ class SimWriter(io.StringIO):
             room = f['at'] - self.written
             if len(s) > room:
                 part = s[:max(room, 0)]
-                super().write(part)
+                self.real.write(part)
+                self.real.flush()
                 self.written += len(part)
                 self.failed = True
                 self.disk.fired = f['kind']
@@ -35,36 +49,56 @@ class SimWriter(io.StringIO):
                     raise OSError(errno.ENOSPC, 'No space left on device (simulated)', self.name)
                 if f['kind'] == 'eio_write':
                     raise OSError(errno.EIO, 'Input/output error (simulated)', self.name)
-                if f['kind'] == 'torn_crash':
-                    self.crashed = True
-                    self.disk.durable[self.name] = self.getvalue()
-                    raise SimCrash(f'crash after {self.written} bytes of {self.name} reached the disk')
+                self.crashed = True
+                self.real.close()
                 if f['kind'] == 'lost_crash':
-                    self.crashed = True
-                    if f.get('variant') == 'empty' or self.old is None:
-                        self.disk.durable[self.name] = ''
-                    else:
-                        self.disk.durable[self.name] = self.old
-                    raise SimCrash(f'crash before any byte of the rewrite of {self.name} reached the disk')
+                    with builtins.open(self.name, 'w', encoding='utf-8') as g:
+                        if f.get('variant') != 'empty' and self.old is not None:
+                            g.write(self.old)
+                raise SimCrash(f'crash while {self.name} was being written ({f["kind"]}, {self.written} characters in)')
         self.written += len(s)
-        return super().write(s)
+        return self.real.write(s)
+
+    def flush(self):
+        if not self.crashed:
+            self.real.flush()
 
     def close(self):
-        if not self.closed and not self.crashed:
-            # a file that was opened for writing and closed (even after a failed write) holds what was written
-            self.disk.durable[self.name] = self.getvalue()
-            if not self.failed:
-                self.disk.completed.setdefault(self.name, []).append(self.getvalue())
-        super().close()
+        if self.closed:
+            return
+        self.closed = True
+        if self.crashed:
+            return
+        self.real.close()
+        if not self.failed:
+            self.disk.completed.setdefault(self.name, []).append(self.disk.read(self.name))
+
+    def __enter__(self):
+        return self
+
+    def __exit__(self, *exc):
+        self.close()
+        return False
+
+    def __getattr__(self, item):
+        return getattr(self.real, item)
 
 
 class SimDisk:
-    def __init__(self):
-        self.durable = {}
-        self.completed = {}      # name -> contents of every write that completed normally
+    _counter = 0
+
+    def __init__(self, base=None):
+        SimDisk._counter += 1
+        root = base or os.environ.get('GNPYSIM_WORK') or \
+            os.path.join(os.path.dirname(os.path.dirname(os.path.abspath(__file__))), '.work')
+        self.dir = os.path.join(root, f'disk-{os.getpid()}-{SimDisk._counter}')
+        os.makedirs(self.dir, exist_ok=True)
+        self.completed = {}      # absolute name -> contents of every write that completed normally
         self.fault = None
         self.fired = None
-        self.opens_w = 0
+
+    def path(self, name):
+        return os.path.join(self.dir, name)
 
     def arm(self, fault):
         self.fault = fault
@@ -73,14 +107,26 @@ class SimDisk:
     def disarm(self):
         self.fault = None
 
+    def read(self, name):
+        """what the disk holds under that name right now (None if there is no such file)"""
+        try:
+            with builtins.open(name, 'r', encoding='utf-8') as f:
+                return f.read()
+        except FileNotFoundError:
+            return None
+
     def open(self, filename, mode='r', encoding=None, **kwargs):
-        import os
         name = os.path.abspath(str(filename))
-        if 'w' in mode:
-            return SimWriter(self, name)
-        if name not in self.durable:
-            raise FileNotFoundError(errno.ENOENT, 'No such file (simulated)', name)
-        if self.fault is not None and self.fault['kind'] == 'eio_read':
+        if not name.startswith(self.dir):
+            return builtins.open(filename, mode, encoding=encoding, **kwargs)      # equipment files etc.: the real disk
+        if 'w' in mode or 'a' in mode or '+' in mode:
+            old = self.read(name)
+            real = builtins.open(name, mode, encoding=encoding, **kwargs)
+            return FaultyWriter(self, name, real, old)
+        if self.fault is not None and self.fault['kind'] == 'eio_read' and os.path.exists(name):
             self.fired = 'eio_read'
             raise OSError(errno.EIO, 'Input/output error (simulated)', name)
-        return io.StringIO(self.durable[name])
+        return builtins.open(name, mode, encoding=encoding, **kwargs)
+
+    def destroy(self):
+        shutil.rmtree(self.dir, ignore_errors=True)
